@@ -286,7 +286,7 @@ class FIXContainer:
         """
         g = self.get_group_list(tag)
 
-        if index >= len(g):
+        if not -len(g) <= index < len(g):
             raise TagNotFoundError(
                 f"get_group_by_index: index is out of range of {tag=} group"
             )
